@@ -461,6 +461,12 @@ func oracleExtreme(seed int64, id int) CaseResult {
 				engs = append(engs, engine.NewDistributedEngine(opts, api.NewStaticEndpoints(remotes)))
 			}
 			for _, eng := range engs {
+				// a range query whose step is below a millisecond (the resolution of the step grid)
+				step = "range query with a step of 400us"
+				if q, err := eng.NewRangeQuery(NewStore(data), nil, qs, time.UnixMilli(w.Start), time.UnixMilli(w.Start).Add(3*time.Millisecond), 400*time.Microsecond); err == nil {
+					q.Exec(context.Background())
+					q.Close()
+				}
 				for _, order := range [][]string{{"close"}, {"cancel", "exec", "close"}, {"cancel", "close"}, {"close", "close"}, {"exec", "cancel", "close", "cancel"}, {"cancel", "cancel", "exec", "close", "close"}} {
 					q, err := makeQuery(eng, NewStore(data), EngineCfg{}, qs, w)
 					if err != nil {
@@ -489,7 +495,7 @@ func nanValue() float64 { var z float64; return z / z }
 // oracleCancel (C14): cancellation at the k-th callback / at a random instant /
 // with a storage that blocks until cancelled.
 func oracleCancel(seed int64, id int) CaseResult {
-	fc, r := genFaultCase(seed, id, []string{"cancel", "block", "timer", "race", "blockcancel", "precancel"}, allSites[:11])
+	fc, r := genFaultCase(seed, id, []string{"cancel", "block", "timer", "race", "blockcancel", "precancel", "deadline", "blockclose"}, allSites[:11])
 	if id%3 == 0 {
 		fc.Dist = true
 	}
@@ -520,11 +526,17 @@ func oracleCancel(seed int64, id int) CaseResult {
 	st := NewStore(data)
 	ctx, cancel := context.WithCancel(context.Background())
 	defer cancel()
+	if fc.Kind == "deadline" {
+		// the caller's context times out while the storage is blocked: the error is the deadline's
+		cancel()
+		ctx, cancel = context.WithTimeout(context.Background(), time.Duration(15+r.Intn(30))*time.Millisecond)
+		defer cancel()
+	}
 	st.Cancel = cancel
 	switch fc.Kind {
 	case "cancel":
 		st.Faults = []Fault{{Kind: "cancel", Site: fc.Site, N: fc.N}}
-	case "block", "blockcancel":
+	case "block", "blockcancel", "deadline", "blockclose":
 		st.Faults = []Fault{{Kind: "block", Site: fc.Site, N: fc.N}}
 	}
 	eng, _ := newEngines(fc.Dist, data, st)
@@ -540,6 +552,7 @@ func oracleCancel(seed int64, id int) CaseResult {
 		cancel() // the context is already done when Exec is called
 	}
 	go func() { done <- q.Exec(ctx) }()
+	var closedCh chan struct{}
 	switch fc.Kind {
 	case "block":
 		time.Sleep(time.Duration(1+r.Intn(20)) * time.Millisecond)
@@ -559,6 +572,14 @@ func oracleCancel(seed int64, id int) CaseResult {
 		}
 		time.Sleep(time.Duration(1+r.Intn(20)) * time.Millisecond)
 		q.Cancel()
+	case "blockclose":
+		// the same with Close() from another goroutine: it must interrupt the running Exec
+		for i := 0; i < 4000 && atomic.LoadInt64(&storeEvents) == ev0; i++ {
+			time.Sleep(500 * time.Microsecond)
+		}
+		time.Sleep(time.Duration(1+r.Intn(20)) * time.Millisecond)
+		closedCh = make(chan struct{})
+		go func(ch chan struct{}) { q.Close(); close(ch) }(closedCh)
 	}
 	var out Canon
 	select {
@@ -570,10 +591,26 @@ func oracleCancel(seed int64, id int) CaseResult {
 		res.Ref = trunc(string(buf[:runtime.Stack(buf, true)]), 2000)
 		return res
 	}
+	if closedCh != nil {
+		select {
+		case <-closedCh:
+		case <-time.After(10 * time.Second):
+			res.Fail = "Close() called from another goroutine during Exec did not return within 10s (" + res.Tags[0] + ")"
+			return res
+		}
+	}
 	q.Close()
 	res.Impl = trunc(out.String(), 200)
-	cancelled := ctx.Err() != nil || fc.Kind == "race" || fc.Kind == "blockcancel"
-	if out.Kind == "error" {
+	cancelled := ctx.Err() != nil || fc.Kind == "race" || fc.Kind == "blockcancel" || fc.Kind == "blockclose"
+	if fc.Kind == "deadline" {
+		if out.Kind == "error" && !errors.Is(out.RawErr, context.DeadlineExceeded) {
+			res.Fail = "the context's deadline expired during Exec but the error is not the context's (context.DeadlineExceeded): " + fmt.Sprintf("%T", out.RawErr) + " " + out.ErrMsg
+		} else if out.Kind != "error" {
+			if d := diffSelf(out, clean); d != "" {
+				res.Fail = "successful result after the deadline differs from the complete result: " + d
+			}
+		}
+	} else if out.Kind == "error" {
 		if out.Err != "ctx-canceled" && !(fc.Dist && strings.Contains(out.ErrMsg, "context canceled")) {
 			res.Fail = "cancelled query returned an error that is not the context's: [" + out.Err + "] " + out.ErrMsg
 		} else if !errors.Is(out.RawErr, context.Canceled) {
@@ -640,8 +677,16 @@ func oracleConc(seed int64, id int) CaseResult {
 	st := NewStore(data)
 	st.YieldSeed = int64(r.Intn(1<<30) + 1)
 	dist := id%4 == 0
+	if id%6 == 4 {
+		// MaxSamples is a limit per query: many queries, each far below it, together far above it
+		maxSamplesOverride = 4000
+		defer func() { maxSamplesOverride = 0 }()
+	}
 	eng, _ := newEngines(dist, data, st)
 	k := pick(r, []int{2, 8, 32})
+	if id%6 == 4 {
+		k = 32
+	}
 	type job struct {
 		q string
 		w Window
@@ -676,6 +721,16 @@ func oracleConc(seed int64, id int) CaseResult {
 			jobs[i].w = pick(r, wins)
 		}
 	}
+	sameSelect := (id%6 == 5 || id%6 == 3) && !dist
+	if sameSelect {
+		// every query issues the same select and all of them are inside it at the same time; every
+		// other one is cancelled there: the others must not notice
+		text := pick(r, []string{"sum by (a) (foo)", "foo", "rate(foo[1m])", "max(foo) by (b)"})
+		for i := range jobs {
+			jobs[i].q, jobs[i].w = text, faultWindow
+		}
+		st.SlowSelectName, st.SlowSelectDelay, st.SlowSelectCtx = "foo", 25*time.Millisecond, true
+	}
 	res := CaseResult{Query: fmt.Sprintf("%d concurrent queries, first: %s", k, jobs[0].q), Window: faultWindow, NonTriv: true}
 	// "run alone": on an engine of its own, so that the shared engine's first queries are the concurrent ones
 	solo := make([]Canon, k)
@@ -700,7 +755,11 @@ func oracleConc(seed int64, id int) CaseResult {
 			}
 			// Cancel() racing with Exec, for native queries only: promql.query.Cancel of the
 			// embedded Prometheus engine (fallback path) races with its own Exec (library defect).
-			if i%5 == 4 && strings.Contains(fmt.Sprintf("%T", q), "compatibilityQuery") {
+			if sameSelect {
+				if i%2 == 0 {
+					go func() { time.Sleep(time.Duration(2+i%7) * time.Millisecond); q.Cancel() }()
+				}
+			} else if i%5 == 4 && strings.Contains(fmt.Sprintf("%T", q), "compatibilityQuery") {
 				go func() { time.Sleep(time.Duration(i) * 50 * time.Microsecond); q.Cancel() }()
 			}
 			got[i] = canonResult(q.Exec(context.Background()))
@@ -709,7 +768,7 @@ func oracleConc(seed int64, id int) CaseResult {
 	}
 	wg.Wait()
 	for i := range jobs {
-		if i%5 == 4 && got[i].Kind == "error" && got[i].Err == "ctx-canceled" {
+		if (i%5 == 4 || (sameSelect && i%2 == 0)) && got[i].Kind == "error" && got[i].Err == "ctx-canceled" {
 			continue // cancelled on purpose
 		}
 		if d := diffSelf(got[i], solo[i]); d != "" {
@@ -749,6 +808,15 @@ func oracleHist(seed int64, id int) CaseResult {
 	}
 	if dist {
 		eng = engine.NewDistributedEngine(sharedOpts, endpoints)
+	}
+	// an engine whose options carry an active-query tracker with two slots: whatever takes a slot must
+	// give it back on every path, or later queries wait in the queue for ever
+	var tracker *memTracker
+	if !dist && id%7 == 5 {
+		tracker = &memTracker{slots: make(chan struct{}, 2)}
+		eo := promOpts(EngineCfg{})
+		eo.ActiveQueryTracker = tracker
+		eng = engine.New(engine.Opts{EngineOpts: eo})
 	}
 	res := CaseResult{Query: "history", Window: w, NonTriv: true}
 	type kept struct {
@@ -809,12 +877,22 @@ func oracleHist(seed int64, id int) CaseResult {
 				continue
 			}
 			ctx, cancel := context.WithCancel(context.Background())
-			if r.Intn(8) == 0 {
+			if tracker != nil {
+				cancel()
+				ctx, cancel = context.WithTimeout(context.Background(), 10*time.Second)
+			}
+			precancelled := r.Intn(8) == 0
+			if precancelled {
 				cancel() // a cancelled query in the history
 			}
 			raw := q.Exec(ctx)
 			cancel()
 			got := canonResult(raw)
+			if tracker != nil && !precancelled && got.Kind == "error" && (errors.Is(got.RawErr, context.DeadlineExceeded) || strings.Contains(got.ErrMsg, "query queue")) {
+				res.Fail = fmt.Sprintf("step %d %q: the query waited for a slot of the active-query tracker until its context ended (%s): earlier queries of the history kept their slots", step, qs, trunc(got.ErrMsg, 120))
+				res.Ref = strings.Join(ops, " ; ")
+				return res
+			}
 			fresh := canonResult(fq.Exec(context.Background()))
 			fq.Close()
 			if got.Kind == "error" && got.Err == "ctx-canceled" {
@@ -861,6 +939,27 @@ func newFresh(dist bool, remotes []api.RemoteEngine, defaults bool) queryMaker {
 		return engine.NewDistributedEngine(opts, api.NewStaticEndpoints(remotes))
 	}
 	return engine.New(opts)
+}
+
+// memTracker: an in-memory promql.QueryTracker with a fixed number of slots
+type memTracker struct {
+	slots chan struct{}
+}
+
+func (t *memTracker) GetMaxConcurrent() int { return cap(t.slots) }
+func (t *memTracker) Insert(ctx context.Context, _ string) (int, error) {
+	select {
+	case t.slots <- struct{}{}:
+		return 0, nil
+	case <-ctx.Done():
+		return 0, ctx.Err()
+	}
+}
+func (t *memTracker) Delete(int) {
+	select {
+	case <-t.slots:
+	default:
+	}
 }
 
 // dynEndpoints: remote endpoints whose set of engines grows over time
